@@ -3,7 +3,7 @@
 (plus extra checks named in EXTRA) and write seeded/RESULTS.json. /repo is restored after each."""
 import json, os, subprocess, sys, time
 VERIF = os.path.dirname(os.path.dirname(os.path.abspath(__file__)))
-EXTRA = {"C10-2": ["C06"], "C10-4": ["C11"], "C10-5": ["C06"], "C10-9": ["C06"], "C10-15": ["C04"], "C04-5": ["C06"], "C04-20": ["C06"], "C11-5": ["C06"]}
+EXTRA = {"C10-2": ["C06"], "C10-4": ["C11"], "C10-5": ["C06"], "C10-9": ["C06"], "C10-15": ["C04"], "C04-5": ["C06"], "C04-20": ["C06"], "C04-27": ["C06"], "C11-5": ["C06"]}
 def sh(cmd):
     r = subprocess.run(cmd, shell=True, capture_output=True, text=True)
     return r.returncode, r.stdout + r.stderr
